@@ -105,7 +105,7 @@ def run(tier, seed):
         import random as _random
         trng = _random.Random(seed)
         tl = [{"kind": "Sync"}, {"kind": "Control", "action": 4}, {"kind": "Control", "action": 2}, {"kind": "Control", "action": 1}, {"kind": "FontMap"},
-              {"kind": "ErrInfo"}, {"kind": "UnknownData", "t2": 38}, {"kind": "UnknownControl", "ptype": 26}, {"kind": "UnknownControl"}, {"kind": "DeactivateAll"}, {"kind": "DemandActive", "shareId": [7, 7, 7, 7]}]
+              {"kind": "ErrInfo"}, {"kind": "UnknownData", "t2": 38}, {"kind": "UnknownControl", "ptype": 26}, {"kind": "UnknownControl"}, {"kind": "DeactivateAll"}, {"kind": "SlowBitmap"}, {"kind": "DemandActive", "shareId": [7, 7, 7, 7]}]
         for k in range(60 if tier == "quick" else 1500):
             n = trng.choice([2, 2, 3, 4])
             items = [dict(trng.choice(tl)) for _ in range(n)]
@@ -120,8 +120,19 @@ def run(tier, seed):
             for i, it in enumerate(items):
                 if it["kind"] == "UnknownControl": seen_unk = True
                 elif it["kind"] == "DeactivateAll" and seen_unk: items[i] = {"kind": "ErrInfo"}
-            after = [dict(trng.choice(tl[:10])) for _ in range(trng.randint(0, 2))]
+            if k % 5 == 0:     # slow-path bitmap updates on both sides of the deactivate-all: nothing may be delivered behind it
+                items = [{"kind": "SlowBitmap"}][:trng.randint(0, 1)] + [{"kind": "DeactivateAll"}] + [{"kind": "SlowBitmap"} for _ in range(trng.randint(1, 2))]
+            after = [dict(trng.choice(tl[:11])) for _ in range(trng.randint(0, 2))]
             plans.append({"id": "train%d" % k, "steps": with_inputs(HAPPY[:5] + [{"train": items}] + after + HAPPY[:5], k)})
+        # long sessions: the activation cycle repeated many times, the share id constant (xrdp / FreeRDP style) or changing,
+        # every capability list variant - each demand-active received while awaiting activation is owed its answer
+        bmp = HAPPY[5]
+        for k, (same, capv) in enumerate([(s_, c_) for s_ in (True, False) for c_ in (0, 7, 4, 1)]):
+            steps = []
+            for cyc in range(10):
+                sid = [1, 0, 0, 0] if same else [cyc + 1, cyc, 0, 0]
+                steps += [{"kind": "DemandActive", "shareId": sid, "capv": capv}] + HAPPY[1:5] + [bmp, {"kind": "DeactivateAll"}]
+            plans.append({"id": "cycles%d" % k, "steps": with_inputs(steps, 1)})
         pp = os.path.join(wd, "plans.ndjson")
         activation.write_plans(pp, plans)
         trace, blobs, decoded, dec = activation.run_and_decode(wd, pp, seed, v=v, key="activation:abort")
